@@ -39,3 +39,11 @@ Print Assumptions C04_append.
 Theorem C04_reference_refuted : exists bs, integrity_impl_b bs = (1, true) /\ integrity_b bs = (0, false).
 Proof. exists [12; 32; 166; 82; 11; 0; 0; 0; 46; 70; 73; 84; 64; 0; 0; 0; 0; 1; 0; 1; 0; 0; 4; 84; 47]. split; vm_compute; reflexivity. Qed.
 Print Assumptions C04_reference_refuted.
+
+(* what the encoder model writes (14-byte header) is accepted by the rules: the rules are not vacuous on real output, and
+   together with C04_trunc every proper prefix of it is rejected *)
+From Fit Require Import Model.Encoder Proofs.AcceptProofs.
+Theorem C04_encoder_output_accepted : forall c f r, encode_fit c f = Ok r -> (ef_hsize f =? 12) = false ->
+  bytes_ok (er_bytes r) -> 16 < len (er_bytes r) < 2 ^ 32 -> integrity_sequence (er_bytes r) = Some [].
+Proof. exact encode_fit_accepted. Qed.
+Print Assumptions C04_encoder_output_accepted.
